@@ -313,7 +313,7 @@ def gen_aimed(rng, quick, k):
     rows = rng.choice([3, 4, 5, 6, 8, 10])
     cols = rng.choice([8, 10, 20, 20, 40])
     h = rows - 1
-    shape = ['top-O', 'bot-o', 'mid-i', 'ai', 'bot-J', 'put', 'bot-dd', 'horiz', 'horiz', 'scrollmix', 'scrollmix', 'bot-o', 'top-back'][k % 13]
+    shape = ['top-O', 'bot-o', 'mid-i', 'ai', 'bot-J', 'put', 'bot-dd', 'horiz', 'horiz', 'scrollmix', 'sticky', 'bot-o', 'top-back'][k % 13]
     n = rng.choice([h, h + 1, 2 * h + 1, 3 * h + 2, 4 * h + 1])
     style = 'plain' if shape not in ('horiz',) else 'mixed'
     lines = gen_lines(rng, n, cols, style)
@@ -322,6 +322,17 @@ def gen_aimed(rng, quick, k):
     if shape == 'horiz':
         for i in range(0, n, 2):
             lines[i] = ''.join(rng.choice('abcdefghijklmnopqrstuvwxyz   ') for _ in range(rng.choice([cols, cols + 1, cols + cols // 2, 2 * cols + 1, 3 * cols]))).strip() or 'x' * cols
+    if shape == 'sticky':
+        # lines of very different lengths, distinct characters per line: a remembered column (n| / $ then j k ^E ^Y) larger than
+        # the next line is wide; ^E pushes the cursor off the first row, ^Y off the last one, onto a longer line
+        rows, cols = rng.choice([(4, 40), (5, 40), (8, 40), (6, 80), (5, 20)])
+        h = rows - 1
+        n = rng.choice([2 * h + 2, 3 * h + 1, 4 * h])
+        abc = 'abcdefghijklmnopqrstuvwxyz0123456789ABCDEFGHIJKLMNOPQRSTUVWXYZ'
+        lines = []
+        for i in range(n):
+            ln = rng.choice([0, 1, 2, 4, 6]) if i % 2 == rng.below(2) or rng.chance(1, 4) else rng.range(cols // 2, cols - 2)
+            lines.append(''.join(abc[(i * 7 + j) % len(abc)] for j in range(ln)))
     g = Gen(rng, rows, cols, n)
     e = lambda x: x.encode() if isinstance(x, str) else x
 
@@ -372,6 +383,18 @@ def gen_aimed(rng, quick, k):
             A += [rng.choice([b'x', b'3x', b'X', b'D', b'rZ', b'~', b'iabc' + ESC, b'a' + g.text(nl=False) + ESC, b'A' + g.text(nl=False) + ESC, b'cwQQ' + ESC, b'ywP', b'yyp', b'J', b'dd',
                               b'o' + g.text() + ESC, b'O' + g.text() + ESC, b'dw', b'db', b'd0', b'i\n' + ESC, b'p', b'>>', b'<<', b'ifoo\nbar' + ESC])]
             A += rng.choice([[b'u'], [b'u', ctl('r')], [], [rng.choice([b'j', b'k', b'$', b'0', b'w', ctl('e'), ctl('y')])]])
+    elif shape == 'sticky':
+        col = lambda: e('%d|' % rng.choice([cols // 2 - 1, cols // 2 + 2, cols - 4, 22 if cols > 24 else 9]))
+        for _ in range(2):
+            fwd = rng.chance(1, 2)
+            A += (to_top() if fwd else to_bot()) + [rng.choice([col(), col(), b'$'])]
+            if rng.chance(1, 2):
+                A += [rng.choice([b'j', b'k'])]
+                A += [b'H' if fwd else b'L'][:0]        # (the cursor stays where j/k put it)
+            sc = (ctl('e') if fwd else ctl('y'))
+            for _ in range(rng.range(2, 4)):
+                A += [rng.choice([b'', b'', b'2', b'3']) + sc]
+            A += rng.choice([[b'x', b'u'], [b'rX'], [ctl('y') if fwd else ctl('e')], [b'~']])
     else:   # scrollmix
         for _ in range(4):
             A += [g.scroll(), rng.choice([g.edit, g.insert, g.change, g.undo, g.edit])()]
